@@ -119,7 +119,8 @@ class WebApp:
         return path
 
     def stop_script(self, path) -> bool:
-        return self._jobs.stop_job(path)
+        # Jobs are named after the (escaped) path kept in ScriptControl.
+        return self._jobs.stop_job(html.escape(path))
 
     def stop_current(self) -> bool:
         return self._jobs.stop_current()
